@@ -22,6 +22,11 @@ REJECTS = ('httperror', 'redirect', 'close')
 
 
 def run(repo, chk):
+    _run(repo, chk)
+    rule_g(repo, chk)
+
+
+def _run(repo, chk):
     chk.not_decided = ['totality over arbitrary byte strings (exceptions inside the parser are caught by the dispatcher, C04.a, and '
                        'answered by the safety net, but which inputs raise is data)', 'syntactic validity of every error body',
                        'a parser-exception escape rule was dropped at design time: its only report lay on an infeasible path']
@@ -170,3 +175,50 @@ def _case(n):
                 return '400-host'
             return k.strip('(')
     return s[:20]
+
+
+def rule_g(repo, chk):
+    """The error event itself: what every reject response looks like."""
+    chk.rule('C14.g', 'an httperror always marks its response close=True with the status of the error; the default httperror handler turns it '
+                      'into exactly one response whose body is the rendered error; bodiless statuses render an empty body')
+    ERR = 'circuits/web/errors.py'
+    f = repo.func(ERR, 'httperror.__init__')
+    chk.touch(f)
+    g = f.cfg()
+    for attr, want in (('close', 'True'), ('status', 'self.code')):
+        st = [n for n in g.nodes if n.kind == 'stmt' and any(r in ('self.response', f.params[2]) and a == attr and src(v) == want for r, a, v in pat.attr_store(n.ast))]
+        other = [n for n in g.nodes if n.kind == 'stmt' and any(r in ('self.response', f.params[2]) and a == attr and src(v) != want for r, a, v in pat.attr_store(n.ast))]
+        p = Q.escapes(g, [g.entry], lambda n: n in st, exits=('exit',)) if st else ['none']
+        late = any(o in Q.search([x], exc=())[0] for x in st for o in other)
+        chk.ob('g', f.ref, f'every error response gets {attr} = {want}', bool(st) and p is None and not late, loc(f, f.node),
+               path=pat.path_lines(p) if p and p != ['none'] else None, discr=f'error-response:{attr}')
+    cs = [n for n in g.nodes if n.kind == 'stmt' and any(r == 'self' and a == 'code' for r, a, v in pat.attr_store(n.ast))]
+    okc = bool(cs) and all(src(v) == f.params[3] for n in cs for r, a, v in pat.attr_store(n.ast) if a == 'code') and \
+        all(pat.guarded_by(g, n, pat.test_edge(lambda tt, pol: pat.fact_matches(pat.compare_fact(tt, pol), f.params[3], ('is not',), 'None'))) is None for n in cs)
+    chk.ob('g', f.ref, 'the status is the code given to the constructor when one is given (else the class default)', okc, loc(f, f.node), discr='code-from-argument')
+    h = repo.func(WEB_HTTP, 'HTTP._on_httperror')
+    chk.touch(h)
+    gh = h.cfg()
+    ev, res = h.params[1], h.params[3]
+    body = [n for n in gh.nodes if n.kind == 'stmt' and any(r == res and a == 'body' and src(v) == f'str({ev})' for r, a, v in pat.attr_store(n.ast))]
+    fires = [n for n in gh.nodes if n.kind == 'stmt' and any(pat.event_ctor_name(e) == 'response' and [src(x) for x in e.args] == [res] for _c, _r, e in pat.fire_calls(n.ast))]
+    p1 = Q.escapes(gh, [gh.entry], lambda n: n in body, exits=('exit',)) if body else ['none']
+    p2 = Q.escapes(gh, body, lambda n: n in fires, exits=('exit',)) if fires and body else ['none']
+    twice = any(o in Q.search([e.dst for e in x.succ], exc=())[0] for x in fires for o in fires)
+    chk.ob('g', h.ref, 'the default error handler renders the error into the body and fires exactly one response for it', p1 is None and p2 is None and not twice,
+           loc(h, h.node), discr='error-answered-once')
+    st = repo.func(ERR, 'httperror.__str__')
+    chk.touch(st)
+    gs = st.cfg()
+    empties = [n for n in gs.nodes if n.kind == 'stmt' and isinstance(n.ast, ast.Return) and src(n.ast.value) in ("''", '""')]
+    atoms = [m for m in gs.nodes if m.kind == 'test' and isinstance(m.ast, ast.Compare) and src(m.ast.left) == 'self.code']
+    lt = [m for m in atoms if pat.fact_matches(pat.compare_fact(m.ast, 'T'), 'self.code', ('<',), '200')]
+    isin = [m for m in atoms if isinstance(m.ast.ops[0], ast.In) and isinstance(m.ast.comparators[0], (ast.Tuple, ast.Set, ast.List))
+            and {'204', '304'} <= {src(x) for x in m.ast.comparators[0].elts}]
+
+    def leads_to_empty(m):
+        d = [e.dst for e in m.succ if e.kind == 'T']
+        return bool(d) and all(x in empties or Q.escapes(gs, [x], lambda n: n in empties, exits=('exit',)) is None for x in d)
+    ok = bool(lt) and bool(isin) and all(leads_to_empty(m) for m in lt + isin) and \
+        all(Q.escapes(gs, [gs.entry], lambda n: n is m, exits=('exit',)) is None for m in lt[:1])
+    chk.ob('g', st.ref, 'errors with a status below 200 or 204/304 render an empty body', ok, loc(st, st.node), discr='bodiless-status-empty')
